@@ -969,7 +969,7 @@ PROPS["C05"] = dict(
                "(one call through a transmuted fn pointer) is RustExec.v's definition (spec side, by inspection of a 3-line template), not rustc's.",
 )
 PROPS["C16"] = dict(
-    profile=dict(FUNC_PROFILE, p_cc=0.6, p_vftable=0.7, p_base=0.5), n=(400, 6000), corpus=["common", "C16"],
+    profile=dict(FUNC_PROFILE, p_cc=0.6, p_vftable=0.7, p_base=0.6, p_slot_mut=0.2, slot_mut_kinds=["cc"]), n=(400, 6000), corpus=["common", "C16"],
     aspects=["verdict", "field_types", "body_addr", "fn_sig", "methods"],
     monitors=[mon_c16],
     nontrivial=lambda res: res.hv[0] == "ok" and res.case.get("exp") and any(
